@@ -15,6 +15,17 @@ Theorem C11_inv : forall c ops, cfg_ok c -> Forall op_ok ops -> Inv (fst (run c 
 Proof. exact C11_inv_lemma. Qed.
 Print Assumptions C11_inv.
 
+Theorem C11_inv_xstep : forall c s x,
+  cfg_ok c -> (match x with Plain o => op_ok o | _ => True end) -> Inv s -> Inv (fst (xstep c s x)).
+Proof. exact xstep_Inv. Qed.
+Print Assumptions C11_inv_xstep.
+
+Theorem C11_inv_xrun : forall c ops,
+  cfg_ok c -> Forall (fun x => match x with Plain o => op_ok o | _ => True end) ops ->
+  forall s, Inv s -> Inv (fst (xrun c s ops)).
+Proof. exact xrun_Inv. Qed.
+Print Assumptions C11_inv_xrun.
+
 Theorem C11_gone : forall c s e reason,
   cfg_ok c -> Inv s -> In e (live s) ->
   gone e (sids_of_eio (mg s) e) (fst (step c s (EioClose e reason))).
